@@ -815,7 +815,7 @@ func main() {
 	serial := res.Monitor("electric-serialisable",
 		"per forced-overlap round on the real code: every call's outcome and the final state must equal those of SOME serial order of the calls (oracle: the same calls run sequentially on a fresh real model, all permutations tried); a delete with allow-missing must never report NotFound; in stamp rounds the start time returned by a switch that waited for the lock is the clock's time at the switch (the advanced instant; or the stored start time when the mode was already active), never the instant at which the call started to queue; no panic, no stuck call; one evaluation = one round, non-trivial = the queued calls were observed blocked behind the parked one")
 	ic := res.Tie("electric-id-interceptor", "K2",
-		"the mode collection behind an id interceptor, NewModel(WithModeOption(resource.WithIDInterceptor(strings.ToLower))): ALL operation sequences of length <= 3 over a 21-operation alphabet with two spellings of one id (add / create / update / upsert / delete with and without allow-missing / change / clear / set-active / find over the ids a, b and B, both API levels, generated ids with upper-case letters) from a new model and from one configured with an initial record spelled in upper case, plus random sequences of length 4-12 over the same alphabet and the construction itself (accepted, and two initial records the interceptor maps to one key: panic); after every step result, whole observable state and stream events are compared with the Lean model ikstep (Icpt.lean: the interceptor applied where collection.go applies it, model.go's guards comparing spellings); distinct = distinct (initial state, operation prefix)")
+		fmt.Sprintf("the mode collection behind an id interceptor, NewModel(WithModeOption(resource.WithIDInterceptor(strings.ToLower))): ALL operation sequences of length <= 3 over a 21-operation alphabet with two spellings of one id (add / create / update / upsert / delete with and without allow-missing / change / clear / set-active / find over the ids a, b and B, both API levels, generated ids with upper-case letters) from a new model and of length <= %d from one configured with an initial record spelled in upper case, plus random sequences of length 4-12 over the same alphabet and the construction itself (accepted, and two initial records the interceptor maps to one key: panic); after every step result, whole observable state and stream events are compared with the Lean model ikstep (Icpt.lean: the interceptor applied where collection.go applies it, model.go's guards comparing spellings); distinct = distinct (initial state, operation prefix)", f.N(2, 3)))
 	ic.Exhaustive = true
 	if f.Driver != "" {
 		d, err := lib.StartDriver(f.Driver)
@@ -864,7 +864,7 @@ func main() {
 		}
 	}
 	rn.flush()
-	rn.icptFamily(ic, r, f.N(3, 3), f.N(300, 6000))
+	rn.icptFamily(ic, r, 3, f.N(2, 3), f.N(200, 6000))
 	rn.flush()
 	rn.do(config{}, exhaustedSeq(), tie, "id-exhaustion")
 	for i := 0; i < f.N(1500, 30000); i++ {
